@@ -106,6 +106,8 @@ class HierarchyElement(DiagLayer):
         excessive memory consumption for large databases...
         """
 
+        self._invalidate_cached_properties()
+
         #####
         # fill in all applicable objects that use value inheritance
         #####
